@@ -279,6 +279,10 @@ int main(int argc, char** argv)
             Baton baton(pattern, nstreams, mode == "baton");
             std::atomic<int> failures{0};
             auto worker = [&](int t) {
+                // a stream without events stays completely idle (no Stepper, so its lazily created
+                // per-stream states never exist): sparse assignments leave gaps in the stream ids
+                if (assign[t].empty() && mode != "baton")
+                    return;
                 try
                 {
                     baton.acquire(t);
